@@ -94,6 +94,15 @@ macro_rules! on_two_sets {
     }};
 }
 
+/// The same entries (object identities and value payloads), whatever the slot order.
+fn same_entries(a: &Snap, b: &Snap) -> bool {
+    let key = |e: &crate::world::Ent| (e.kid, e.vid, e.vpay, e.kclass, e.ktag, e.kbad, e.vbad);
+    let (mut x, mut y): (Vec<_>, Vec<_>) = (a.iter().map(key).collect(), b.iter().map(key).collect());
+    x.sort_unstable();
+    y.sort_unstable();
+    x == y
+}
+
 /// The insertion an operation attempts: (is a set, target, class), derived from the operation and
 /// the snapshot before it (never from what the container answered).
 pub fn attempted_add(op: &Op, pre: &Pre) -> Option<(bool, T, u32)> {
@@ -262,13 +271,13 @@ impl<K: SimK, V: SimV, const N: usize, const M: usize> World<K, V, N, M> {
         // formatting and serialising never change the container
         if let Op::Fmt { t, set, .. } = op {
             let (a, b) = if *set { (pre.set(*t), post.set(*t)) } else { (pre.map(*t), post.map(*t)) };
-            if a != b {
+            if !same_entries(a, b) {
                 violate("changed-by-formatting", format!("{name}: the container's entries differ after formatting"));
             }
         }
         if let Op::Serde { t, set, .. } = op {
             let (a, b) = if *set { (pre.set(*t), post.set(*t)) } else { (pre.map(*t), post.map(*t)) };
-            if a != b {
+            if !same_entries(a, b) {
                 violate("changed-by-serialising", format!("{name}: the container's entries differ after a serde round trip"));
             }
         }
@@ -289,7 +298,7 @@ impl<K: SimK, V: SimV, const N: usize, const M: usize> World<K, V, N, M> {
                     }
                     if !matches!(ended, Ended::Raised(_)) {
                         violate("no-panic-on-overflow", format!("collect of {} distinct keys into capacity {} returned normally", cap(set) + 1, cap(set)));
-                    } else if a != b {
+                    } else if !same_entries(a, b) {
                         violate("changed-by-rejected-call", format!("{name}: an existing container changed although collect panicked"));
                     }
                     self.rejected_accounting(&name);
@@ -332,7 +341,7 @@ impl<K: SimK, V: SimV, const N: usize, const M: usize> World<K, V, N, M> {
             } else if !matches!(ended, Ended::Raised(_)) {
                 violate("no-panic-on-overflow", format!("{name}: adding an absent key (class {c}) to a container that holds {cap} of {cap} entries returned normally"));
             }
-            if a != b {
+            if !same_entries(a, b) {
                 violate("changed-by-rejected-call", format!("{name}: the full container's entries differ after the rejected insertion"));
             }
             self.rejected_accounting(&name);
